@@ -8,5 +8,6 @@ CONFIG = dict(
     modelled=["the key-location index is abstracted to 'newest valid stored location per key' (C06 proves the refinement absent reported discards; the harness uses a 9973-entry table)",
               "sector-level device writes of the block-device allocator are not modelled here (block contents are byte arrays written per upload chunk)",
               "SHA-256 as identity of content (an upload is valid iff its bytes equal the object's canonical content)",
-              "schedules at the granularity of lock-protected sections / upload chunks / slicer hand-off; Go sync primitives trusted"],
+              "schedules at the granularity of lock-protected sections / upload chunks / slicer hand-off; Go sync primitives trusted",
+              "the theorem assumes wf_tids (every OPutStart/OGetOpen/OGfcStart uses a fresh thread id, as the generator does) and wf_ops (the slicer hands out genuine slices of the parent); without wf_tids the statement is refuted (Props/C01.v full_statement_refuted_a/b/c)"],
 )
